@@ -24,6 +24,8 @@ def _request(method=None, url=None, **kw):
         raise ScriptExhausted('no scripted response left for %s %s' % (method, url))
     r = SCRIPT.pop(0)
     LOG.append(('send', r))
+    if isinstance(r, BaseException):      # a scripted transport failure (raised by the library, e.g. ConnectionError)
+        raise r
     return r
 
 
